@@ -169,11 +169,11 @@ theorem roundtrip_gate (o : Opts) (files : List (List Message)) (hne : files ≠
   rw [roundtrip_full o files hne h]
   simp only [gate_files o files h, ↓reduceIte]
 
-theorem roundtrip_text_gate (tp : TextParam) (hf : FloatOK tp) (o : Opts) (files : List (List Message)) (hne : files ≠ [])
-    (h : csvUnambiguousB o files = true) :
+theorem roundtrip_text_gate (tp : TextParam) (o : Opts) (files : List (List Message)) (hf : FloatOK tp (csvAtoms o files))
+    (hne : files ≠ []) (h : csvUnambiguousB o files = true) :
     ∃ lines, csvText tp o (toCsv o files) = some lines ∧
       fromCsvText (Arith.so.withText tp) lines = .ok ⟨expected o files, files.length⟩ := by
-  obtain ⟨lines, h1, h2⟩ := roundtrip_text tp hf o files hne h
+  obtain ⟨lines, h1, h2⟩ := roundtrip_text tp o files hf hne h
   refine ⟨lines, h1, ?_⟩
   unfold fromCsvText
   rw [h2]
